@@ -13,6 +13,7 @@ Compared: partition names and order, exception (type, message), loaded
 flag, final position of the shared image stream, the sequence of
 seek/read/tell calls on it, and the arguments of every parser call.
 """
+import struct
 from construct.core import ConstructError
 from construct.core import StreamError
 from construct.core import ConstError
@@ -49,7 +50,7 @@ class OriginalAkaiImageParser(AkaiImageParser):
                     _elem_parent=self,
                     _elem_routines=self._routines
                 )
-            except (InvalidPartition, ConstructError) as e:
+            except (InvalidPartition, ConstructError, struct.error) as e:  # as in the tree after the struct.error fix
                 break
             partitions.append(partition)
             partition_cnt += 1
